@@ -1,6 +1,306 @@
-/- Driver/C20 — stub until the property's model driver is written. -/
+/-
+Driver/C20 — answers the C20 request lines from the executable models
+(Model/Path, Model/CacheKeys, Model/DiskFs).  Strings travel as hex of their UTF-8 bytes
+(`-` = empty, `~` = None); paths are printed as "/S/…" text, hex-encoded.
+-/
 import Driver.Common
-open Drv
+import Cascette.Model.Path
+import Cascette.Model.CacheKeys
+import Cascette.Model.DiskFs
+open Cascette Drv
+open Cascette.Model.Path Cascette.Model.CacheKeys Cascette.Model.DiskFs
+
+def decStr (t : String) : Option String :=
+  match parseHexNat t with
+  | some l => String.fromUTF8? (ByteArray.mk (l.map UInt8.ofNat).toArray)
+  | none => none
+
+def decOpt (t : String) : Option (Option String) :=
+  if t == "~" then some none else (decStr t).map some
+
+def utf8 (s : String) : List Nat := s.toUTF8.toList.map (·.toNat)
+def encS (s : String) : String := hexOfNats (utf8 s)
+def encP (p : APath) : String := encS (String.ofList (render p))
+
+def cS : Comp := ['S']
+def rootP : APath := [cS, ['d', '1'], ['d', '2'], ['c', 'a', 'c', 'h', 'e']]
+def fs0 : Fs := { dirs := (List.range 5).map (fun i => rootP.take i), files := [] }
+
+/-- non-overlapping occurrences of ".." (the harness's safety guard). -/
+def dd : List Char → Nat
+  | '.' :: '.' :: r => 1 + dd r
+  | _ :: r => dd r
+  | [] => 0
+
+def startsWith (p s : List Char) : Bool := p.isPrefixOf s
+
+def unsafeArgs (direct other : List String) : Bool :=
+  let bad (s : String) : Bool :=
+    let l := s.toList
+    isAbs l &&
+      !(startsWith "/S/".toList l && dd l == 0 &&
+        (segs (l.drop 3)).any (fun g => !(g == [] || g == dot)))
+  direct.any bad || ((direct ++ other).map (fun s => dd s.toList)).sum > 3
+
+def layoutLevels : String → Option Nat
+  | "flat" => some 0
+  | "h1" => some 1
+  | "h2" => some 2
+  | "h3" => some 3
+  | _ => none
+
+def subFor (levels : Nat) (key : String) : List Comp := subDirs levels (keyHash (utf8 key))
+
+def fmtPut : PutOut → String
+  | .ok f => "ok file=" ++ encP f
+  | .err none => "err left=-"
+  | .err (some t) => "err left=" ++ encP t
+
+def putKey (levels : Nat) (key : String) : PutOut := put fs0 rootP (subFor levels key) key.toList
+
+/-- ASCII alphanumerics plus the non-ASCII alphanumerics the harness generator uses. -/
+def alnumD (c : Char) : Bool :=
+  isAsciiAlnum c || c == 'é' || c == '中'
+
+def isTcpOnly (e : String) : Bool :=
+  e.startsWith "v1/summary" || e.startsWith "v1/certs/" || e.startsWith "v1/ocsp/"
+
+def ctOf : String → Option ContentType
+  | "config" => some .config
+  | "data" => some .data
+  | "patch" => some .patch
+  | _ => none
+
+def b01 : String → Option Bool
+  | "0" => some false
+  | "1" => some true
+  | _ => none
+
+def optNat (t : String) (max : Nat) : Option (Option Nat) :=
+  if t == "~" then some none else
+  match t.toNat? with
+  | some n => if n ≤ max then some (some n) else none
+  | none => none
+
+def natLe (t : String) (max : Nat) : Option Nat :=
+  match t.toNat? with
+  | some n => if n ≤ max then some n else none
+  | none => none
+
+def hash32 (t : String) : Option Str :=
+  match parseHexNat t with
+  | some l => if l.length = 16 then some (hexEncode l) else none
+  | none => none
+
+/-- typed key from the request tokens, with the decoded string arguments (for the guard). -/
+def parseTyped : String → List String → Option (Key × List String)
+  | "ribbit", [e, r, p] =>
+    match decStr e, decStr r, decOpt p with
+    | some e, some r, some p => some (.ribbit e.toList r.toList (p.map (·.toList)), [e, r] ++ p.toList)
+    | _, _, _ => none
+  | "config", [t, h] =>
+    match decStr t, decStr h with
+    | some t, some h => some (.config t.toList h.toList, [t, h])
+    | _, _ => none
+  | "blte", [e, i] =>
+    match hash32 e, optNat i (2 ^ 32 - 1) with
+    | some e, some i => some (.blte e i, [])
+    | _, _ => none
+  | "content", [c] => (hash32 c).map fun c => (.content c, [])
+  | "index", [n, h] =>
+    match decStr n, decStr h with
+    | some n, some h => some (.archiveIndex n.toList h.toList, [n, h])
+    | _, _ => none
+  | "manifest", [t, c, v] =>
+    match decStr t, hash32 c, decOpt v with
+    | some t, some c, some v => some (.manifest t.toList c (v.map (·.toList)), [t] ++ v.toList)
+    | _, _, _ => none
+  | "root", [c, p, v] =>
+    match hash32 c, b01 p, optNat v 255 with
+    | some c, some p, some v => some (.rootFile c p v, [])
+    | _, _, _ => none
+  | "encoding", [e, pg, p] =>
+    match hash32 e, optNat pg (2 ^ 32 - 1), b01 p with
+    | some e, some pg, some p => some (.encodingFile e pg p, [])
+    | _, _, _ => none
+  | "archive", [id, st, len] =>
+    match decStr id, natLe st (2 ^ 64 - 1), natLe len (2 ^ 32 - 1) with
+    | some id, some st, some len => some (.archiveRange id.toList st len, [id])
+    | _, _, _ => none
+  | "blteblock", [c, i, d] =>
+    match hash32 c, natLe i (2 ^ 32 - 1), b01 d with
+    | some c, some i, some d => some (.blteBlock c i d, [])
+    | _, _, _ => none
+  | _, _ => none
+
+def sortStrings (l : List String) : List String := l.mergeSort (fun a b => a < b || a == b)
+
+def outcomeStr (o : Outcome Str) (onOk : String → String) : String :=
+  match o with
+  | .invalidKey => "err:invalid-key"
+  | .panic => "panic"
+  | .ok v => onOk (String.ofList v)
+
+def urlPart (cu : Bool) (tail : Option Str) : String :=
+  if !cu then "-" else
+  match tail with
+  | some t => encS (String.ofList ('/' :: t))
+  | none => "-"
+
+def handle : List String → String
+  | ["raw", layout, k] =>
+    match layoutLevels layout, decStr k with
+    | some lv, some key =>
+      if unsafeArgs [key] [] then "unsafe-skip" else fmtPut (putKey lv key)
+    | _, _ => "bad-op"
+  | ["rget", layout, k] =>
+    match layoutLevels layout, decStr k with
+    | some lv, some key =>
+      if unsafeArgs [key] [] then "unsafe-skip" else
+      let sub := subFor lv key
+      let fs : Fs := { (mkdirAll fs0 (rootP ++ sub)) with
+        files := [[cS, ['d', '1'], ['s','e','c','r','e','t']], rootP ++ [['i','n','s','i','d','e']]] }
+      match getCold fs rootP sub key.toList with
+      | some loc => "hit " ++ encP loc
+      | none => "miss"
+    | _, _ => "bad-op"
+  | "typed" :: layout :: kind :: args =>
+    match layoutLevels layout, parseTyped kind args with
+    | some lv, some (k, strs) =>
+      let text := String.ofList (cacheKey k)
+      if unsafeArgs [] strs then "key=" ++ encS text ++ " unsafe-skip"
+      else "key=" ++ encS text ++ " " ++ fmtPut (putKey lv text)
+    | _, _ => "bad-op"
+  | ["tmp", layout, k] =>
+    match layoutLevels layout, decStr k with
+    | some lv, some key =>
+      if unsafeArgs [key] [] then "unsafe-skip" else
+      match putKey lv key with
+      | .ok f =>
+        let t := normalize (withExtTmp (diskPath rootP (subFor lv key) key.toList))
+        if t = f then "tmp=none" else "tmp=" ++ encP t
+      | .err _ => "n/a"
+    | _, _ => "bad-op"
+  | ["seq", k1, k2] =>
+    match decStr k1, decStr k2 with
+    | some a, some b =>
+      if a.contains '/' || b.contains '/' || a.contains '\x00' || b.contains '\x00' then "n/a"
+      else if unsafeArgs [a, b] [] then "unsafe-skip"
+      else match putKey 0 a, putKey 0 b with
+        | .ok fa, .ok fb =>
+          let ta := normalize (withExtTmp (diskPath rootP [] a.toList))
+          if fa = fb || ta = fb then "lost" else "kept"
+        | _, _ => "n/a"
+    | _, _ => "bad-op"
+  | ["pcache", k] =>
+    match decStr k with
+    | some key =>
+      if unsafeArgs [key] [] then "unsafe-skip" else
+      match putKey 0 key with
+      | .ok f => fmtPut (.ok f) ++ " get=hit"
+      | o => fmtPut o
+    | none => "bad-op"
+  | ["query", e] =>
+    match decStr e with
+    | some ep =>
+      if unsafeArgs [] [ep] then "unsafe-skip"
+      else if validateEndpoint alnumD ep.toList != .ok then "err:invalid-endpoint"
+      else if isTcpOnly ep then "err:other left=-"
+      else match putKey 0 (String.ofList (ribbitCacheKey ep.toList)) with
+        | .ok f => fmtPut (.ok f)
+        | .err none => "err:other left=-"
+        | .err (some t) => "err:other left=" ++ encP t
+    | none => "bad-op"
+  | "cdn" :: api :: scheme :: host :: path :: rest =>
+    match decOpt scheme, decStr path with
+    | some _, some path =>
+      let localHost := host == "@"
+      if !localHost && (decStr host).isNone then "bad-op" else
+      let storeOut (ck : Outcome Str) (tail : Option Str) (cu : Bool) : String :=
+        outcomeStr ck fun key =>
+          if !localHost then "err:other left=-" else
+          match putKey 0 key with
+          | .ok f => fmtPut (.ok f) ++ " url=" ++ urlPart cu tail
+          | .err none => "err:other left=-"
+          | .err (some t) => "err:other left=" ++ encP t
+      match api, rest with
+      | "download", [ct, key, cuf] =>
+        match ctOf ct, parseHexNat key with
+        | some ct, some key =>
+          if unsafeArgs [] [path] then "unsafe-skip" else
+          storeOut (downloadCacheKey path.toList ct key)
+            (cdnTail path.toList ct.text (hexEncode key) []) (cuf == "cu=1")
+        | _, _ => "bad-op"
+      | "range", [ct, key, off, len] =>
+        match ctOf ct, parseHexNat key, natLe off (2 ^ 64 - 1), natLe len (2 ^ 64 - 1) with
+        | some _, some key, some off, some len =>
+          if unsafeArgs [] [path] then "unsafe-skip"
+          else if key.length < 2 then "err:invalid-key"
+          else if !localHost then "err:other left=-"
+          else "ok range=" ++ encS ("bytes=" ++ toString off ++ "-" ++ toString (rangeEnd off len))
+        | _, _, _, _ => "bad-op"
+      | "index", [ak, cuf] =>
+        match decStr ak with
+        | some ak =>
+          if unsafeArgs [] [path, ak] then "unsafe-skip" else
+          storeOut (archiveIndexCacheKey path.toList ak.toList)
+            (cdnTail path.toList sData ak.toList sIndexExt) (cuf == "cu=1")
+        | none => "bad-op"
+      | "isize", [ak, cuf] =>
+        match decStr ak with
+        | some ak =>
+          if unsafeArgs [] [path, ak] then "unsafe-skip"
+          else if !archiveKeyOk ak.toList then "err:invalid-key"
+          else if !localHost then "err:other left=-"
+          else "ok url=" ++ urlPart (cuf == "cu=1") (cdnTail path.toList sData ak.toList sIndexExt)
+        | none => "bad-op"
+      | api, [ct, key, cuf] =>
+        if api == "resume" || api == "progress" || api == "size" then
+          match ctOf ct, parseHexNat key with
+          | some ct, some key =>
+            if unsafeArgs [] [path] then "unsafe-skip"
+            else if key.length < 2 then "err:invalid-key"
+            else if !localHost then "err:other left=-"
+            else "ok url=" ++ urlPart (cuf == "cu=1") (cdnTail path.toList ct.text (hexEncode key) [])
+          | _, _ => "bad-op"
+        else "bad-op"
+      | _, _ => "bad-op"
+    | _, _ => "bad-op"
+  | ["inst", n, dataDir, indicesDir, stdCsv] =>
+    match decStr n with
+    | some name =>
+      if unsafeArgs [name] [] then "unsafe-skip" else
+      match installDir rootP name.toList with
+      | none => "err:config"
+      | some dir =>
+        let existing : List APath := rootP :: (stdCsv.splitOn ",").map (fun d => rootP ++ [d.toList])
+        -- `create_dir_all("…/new/.")`: mkdir fails with ENOENT and `parent()` skips the "." , so a
+        -- "." among the trailing segments of a directory that does not exist yet is an I/O error
+        if name.contains '\x00' || nameTooLong dir ||
+            (((segs name.toList).reverse.takeWhile (fun g => g == [] || g == dot)).any (· == dot) &&
+              !existing.contains (normalize dir)) then "err:other" else
+        let chain (leaf : String) : List APath :=
+          let full := dir ++ [leaf.toList]
+          (List.range (full.length + 1)).map (fun i => normalize (full.take i))
+        let cand := (chain dataDir ++ chain indicesDir).filter
+          (fun p => rootP.length < p.length && !existing.contains p)
+        let names := sortStrings (cand.eraseDups.map (fun p => String.ofList (render p)))
+        "ok dirs=" ++ (if names.isEmpty then "-" else ",".intercalate (names.map encS))
+    | none => "bad-op"
+  | ["fmt", "ckpath", k] =>
+    match parseHexNat k with
+    | some b => if b.length = 9 then encP (contentKeyPath rootP b) else "bad-op"
+    | none => "bad-op"
+  | ["fmt", "lru", g] =>
+    match natLe g (2 ^ 64 - 1) with
+    | some g => encP (lruFilePath rootP g)
+    | none => "bad-op"
+  | ["fmt", "idx", k] =>
+    match parseHexNat k with
+    | some b =>
+      if b.length = 16 then "ok file=" ++ encP (rootP ++ [indexFileName (bucketIndex b) 1]) else "bad-op"
+    | none => "bad-op"
+  | _ => "bad-op"
 
 def main : IO Unit := do
-  loopPure (← IO.getStdin) (← IO.getStdout) (fun _ => "bad-op")
+  loopPure (← IO.getStdin) (← IO.getStdout) handle
